@@ -198,3 +198,49 @@ Definition gpn_mock (m : mock) (p : nat) (fi : bool) : @pn_kernels Q :=
   {| pk_grad := pk_grad K; pk_subdiff := pk_subdiff K; pk_fixpoint := pk_fixpoint K; pk_lip_all := pk_lip_all K;
      pk_sum_raw_grad := pk_sum_raw_grad K; pk_gsupp := fun w => mk_gsupp (firstn p w); pk_topk := pk_topk K;
      pk_direction := pk_direction K; pk_linesearch := pk_linesearch K; pk_df_value := pk_df_value K; pk_pen_value := pk_pen_value K |}.
+
+(* ---------------- decision-fragile traces: the same end-to-end cases on an explicit Num instance ---------------- *)
+Definition mock_solve_z_N (N : Num Q) (U : list (list Q)) : option (list Q) :=
+  match U with
+  | [] => None
+  | u0 :: _ => if @feqb Q N (@vdot Q N u0 u0) 0 then None
+               else Some (map (fun u => if @feqb Q N (@vdot Q N u u) 0 then 1 else 2) U)
+  end.
+Definition gram_case_aa_N (N : Num Q) (X : list (list Q)) (y : list Q) (max_iter : nat) (tol : Q) (use_acc greedy : bool)
+    (score : list Q -> list Q -> list Z -> res (list (Ext Q))) (prox : Q -> Q -> Z -> res Q)
+    (value : list Q -> res (Ext Q)) (w_init : option (list Q)) : res (@gout Q (@gstate Q (@aa_state Q))) :=
+  bind (@gram_setup Q N X y) (fun D =>
+  @gsolve Q N _ {| gc_max_iter := max_iter; gc_tol := tol; gc_use_acc := use_acc |}
+         {| gk_score := fun w g => score w g (zrange 0 (zlen w));
+            gk_epoch := fun w g => @_gram_cd_epoch Q N score prox (gd_Q D) w g greedy;
+            gk_pen_value := value; gk_acc_init := aa_init; gk_acc_step := @aa_step Q N 5 (mock_solve_z_N N) |} D w_init).
+Definition fista_case_N (N : Num Q) (X : list (list Q)) (y : list Q) (L : Q) (max_iter : nat) (tol : Q)
+    (score : list Q -> list Q -> list Z -> res (list (Ext Q))) (prox : Q -> Q -> Z -> res Q)
+    (value : list Q -> res (Ext Q)) (w_init : option (list Q)) :=
+  let n := length y in
+  @fsolve Q N {| fk_grad := fun z => @Quadratic_gradient Q N X y (@mv Q N n X z);
+            fk_prox := fun w z step => _prox_vec prox w z step;
+            fk_score := fun w g => score w g (zrange 0 (zlen w));
+            fk_objective := fun w => bind (@Quadratic_value Q N y w (@mv Q N n X w)) (fun d => bind (value w) (fun pv => Ok (@eadd Q N (Fin d) pv))) |}
+         L max_iter tol (length X) w_init.
+
+(* a trace is decision-fragile when shifting every order / equality test by the margin changes what the MODEL returns *)
+Definition ext_same (a b : Ext Q) : bool := match a, b with Fin x, Fin y => Qeqb x y | PInf, PInf => true | _, _ => false end.
+Definition same_gram (a b : res (@gout Q (@gstate Q (@aa_state Q)))) : bool :=
+  match a, b with
+  | Err _, Err _ => true
+  | Ok g, Ok h => all2 Qeqb (gs_w (g_s g)) (gs_w (g_s h)) && all2 ext_same (g_obj g) (g_obj h) && ext_same (g_stop g) (g_stop h)
+  | _, _ => false
+  end.
+Definition frag_gram (r : res (@gout Q (@gstate Q (@aa_state Q))) * res (@gout Q (@gstate Q (@aa_state Q))) * res (@gout Q (@gstate Q (@aa_state Q))))
+    (o : obs_run) : bool :=
+  let '(a, b, c) := r in negb (same_gram a b && same_gram a c).
+Definition same_fista (a b : res (@fstate Q * list (Ext Q) * Ext Q * nat)) : bool :=
+  match a, b with
+  | Err _, Err _ => true
+  | Ok (s, obj, stop, n), Ok (s', obj', stop', n') => all2 Qeqb (f_w s) (f_w s') && all2 ext_same obj obj' && ext_same stop stop'
+  | _, _ => false
+  end.
+Definition frag_fista (r : res (@fstate Q * list (Ext Q) * Ext Q * nat) * res (@fstate Q * list (Ext Q) * Ext Q * nat) * res (@fstate Q * list (Ext Q) * Ext Q * nat))
+    (o : obs_run) : bool :=
+  let '(a, b, c) := r in negb (same_fista a b && same_fista a c).
